@@ -12,8 +12,12 @@ import sys, os, json, subprocess, time, re, shutil, hashlib, glob
 
 VERIF = os.path.dirname(os.path.abspath(__file__))
 REPO = os.environ.get("VERIF_REPO", "/repo")
+# Evidence and replays of a run against a scratch worktree (VERIF_REPO, mutation testing only) are kept
+# apart, so that evidence/ and replays/ always come from a run against /repo itself.
+MUT = os.path.realpath(REPO) != "/repo"
 LEAN = os.path.join(VERIF, "lean")
 BUILD = os.path.join(VERIF, "build")
+REPLAYS = os.path.join(BUILD, "mut", "replays") if MUT else os.path.join(VERIF, "replays")
 sys.path.insert(0, VERIF)
 from propdefs import PROPS  # noqa: E402
 
@@ -351,7 +355,7 @@ def load_known():
 
 
 def write_replay(pid, name, obj):
-    d = os.path.join(VERIF, "replays", pid)
+    d = os.path.join(REPLAYS, pid)
     os.makedirs(d, exist_ok=True)
     p = os.path.join(d, name + ".json")
     json.dump(obj, open(p, "w"), indent=1)
@@ -400,7 +404,7 @@ def main():
     log = []
     os.makedirs(BUILD, exist_ok=True)
     # clean this property's replays from earlier runs (they are per-run artefacts), keep committed corpus elsewhere
-    rdir = os.path.join(VERIF, "replays", pid)
+    rdir = os.path.join(REPLAYS, pid)
     only_case = None
     sub = None
     if replay:
@@ -595,8 +599,9 @@ def main():
     }
     if "leanchecker" in lean:
         ev["coverage"]["leanchecker"] = lean["leanchecker"]
-    os.makedirs(os.path.join(VERIF, "evidence"), exist_ok=True)
-    json.dump(ev, open(os.path.join(VERIF, "evidence", pid + ".json"), "w"), indent=1)
+    evdir = os.path.join(VERIF, "build", "mut", "evidence") if MUT else os.path.join(VERIF, "evidence")
+    os.makedirs(evdir, exist_ok=True)
+    json.dump(ev, open(os.path.join(evdir, pid + ".json"), "w"), indent=1)
     cleanup(pid, keep_out=bool(vio_count))
     for l in out_lines:
         print(l)
